@@ -9,7 +9,15 @@ id="$1"; tier="${2:-quick}"
 mkdir -p .cache/bin
 bin=".cache/bin/vcheck.$$"
 trap 'rm -f "$bin"' EXIT INT TERM
-if ! go build -tags verif -o "$bin" ./cmd/vcheck 2>.cache/bin/build.$$.log; then
+modflag=""
+if [ -n "$VERIF_REPO" ] && [ "$VERIF_REPO" != "/repo" ]; then
+  # trial runs against another checkout: link the driver against it too
+  sed "s#=> /repo#=> $VERIF_REPO#" go.mod > .cache/bin/go.$$.mod
+  cp go.sum .cache/bin/go.$$.sum
+  modflag="-modfile=.cache/bin/go.$$.mod"
+  trap 'rm -f "$bin" .cache/bin/go.$$.mod .cache/bin/go.$$.sum' EXIT INT TERM
+fi
+if ! go build $modflag -tags verif -o "$bin" ./cmd/vcheck 2>.cache/bin/build.$$.log; then
   echo "check.sh: cannot build the driver against /repo:" >&2
   cat .cache/bin/build.$$.log >&2; rm -f .cache/bin/build.$$.log
   exit 2
